@@ -7,6 +7,7 @@ package props
 import (
 	"fmt"
 	"math"
+	"reflect"
 	"strconv"
 	"strings"
 	"testing"
@@ -26,6 +27,7 @@ type Ex struct {
 	Lit   string `json:"lit,omitempty"`   // literal source text (int digits, d.d, quoted string, true/false)
 	Name  string `json:"name,omitempty"`  // variable name
 	Paren bool   `json:"paren,omitempty"` // redundant parentheses around this node
+	Items []*Ex  `json:"items,omitempty"` // op arr: the items of an array literal
 }
 
 type c07Case struct {
@@ -51,6 +53,8 @@ var c07Vars = map[string]c07Var{
 	"tiny": {"float", 5e-10}, "ntiny": {"float", -2.5e-12},
 	"f": {"float", 2.5}, "fz": {"float", 0.0}, "f32": {"fnoeq", float32(0.5)},
 	"s": {"str", "ab"}, "e": {"str", ""}, "t": {"bool", true}, "fl": {"bool", false},
+	// a list whose integer elements have different Go kinds
+	"al": {"ilist", []any{int64(1), 2, uint8(3), int8(-5), uint64(7)}},
 	"il": {"ilist", []int{1, 2, 3}}, "sl": {"slist", []string{"a", "b", ""}}, "el": {"ilist", []int{}},
 	"sm": {"smap", map[string]int{"a": 1, "ab": 0, "": 2}}, "im": {"imap", map[int]string{1: "x", 3: "", 0: "z"}}, "em": {"smap", map[string]int{}},
 }
@@ -114,7 +118,7 @@ func binType(op string, l, r *Ex) string {
 			return "bool"
 		}
 		// membership in a list: right side must be a plain list variable
-		if r.Op == "var" && (a == "int" && b == "ilist" || a == "str" && b == "slist") {
+		if (r.Op == "var" || r.Op == "arr") && (a == "int" && b == "ilist" || a == "str" && b == "slist") {
 			return "bool"
 		}
 		// membership in a map: is it a key (the key's Go type must be the map's: string results are
@@ -155,6 +159,7 @@ type c07V struct {
 	S string
 	B bool
 	N int // list length (truthiness)
+	L []c07V // items of an array literal
 }
 
 var errDivZero = fmt.Errorf("division by zero")
@@ -253,6 +258,8 @@ func c07Eval(e *Ex) (c07V, error) {
 			return c07V{T: "bool", B: x}, nil
 		case []int:
 			return c07V{T: "list", N: len(x)}, nil
+		case []any:
+			return c07V{T: "list", N: len(x)}, nil
 		case []string:
 			return c07V{T: "list", N: len(x)}, nil
 		case map[string]int:
@@ -261,6 +268,17 @@ func c07Eval(e *Ex) (c07V, error) {
 			return c07V{T: "list", N: len(x)}, nil
 		}
 		panic("bad var " + e.Name)
+	case "arr":
+		// the items are evaluated in order; the first failure is the literal's
+		v := c07V{T: "list", N: len(e.Items)}
+		for _, it := range e.Items {
+			x, err := c07Eval(it)
+			if err != nil {
+				return x, err
+			}
+			v.L = append(v.L, x)
+		}
+		return v, nil
 	case "neg":
 		x, err := c07Eval(e.L)
 		if err != nil {
@@ -382,7 +400,22 @@ func c07Eval(e *Ex) (c07V, error) {
 		if e.R.T == "str" {
 			return b(strings.Contains(r.S, l.S))
 		}
+		if e.R.Op == "arr" {
+			for _, x := range r.L {
+				if x.T == l.T && (l.T == "int" && x.I == l.I || l.T == "str" && x.S == l.S) {
+					return b(true)
+				}
+			}
+			return b(false)
+		}
 		switch xs := c07Vars[e.R.Name].V.(type) {
+		case []any:
+			for _, x := range xs {
+				rv := reflect.ValueOf(x)
+				if rv.CanInt() && rv.Int() == l.I || rv.CanUint() && int64(rv.Uint()) == l.I {
+					return b(true)
+				}
+			}
 		case []int:
 			for _, x := range xs {
 				if int64(x) == l.I {
@@ -412,7 +445,7 @@ func c07Eval(e *Ex) (c07V, error) {
 // grammar levels: 0 and/or, 1 comparison/in, 2 additive (may start with unary), 3 multiplicative, 4 power, 5 atom
 func exLevel(e *Ex) int {
 	switch e.Op {
-	case "lit", "var":
+	case "lit", "var", "arr":
 		return 5
 	case "neg", "not":
 		return 2
@@ -473,6 +506,17 @@ func (p *c07Printer) print1(e *Ex) {
 		p.sb.WriteString(e.Lit)
 	case "var":
 		p.sb.WriteString(e.Name)
+	case "arr":
+		p.sb.WriteByte('[')
+		for i, it := range e.Items {
+			if i > 0 {
+				p.sb.WriteByte(',')
+			}
+			p.gap(0)
+			p.print(it, 0, true, false)
+			p.gap(0)
+		}
+		p.sb.WriteByte(']')
 	case "neg":
 		p.sb.WriteByte('-')
 		p.gap(0)
@@ -558,6 +602,9 @@ func exOps(e *Ex, levels map[int]int) {
 	}
 	exOps(e.L, levels)
 	exOps(e.R, levels)
+	for _, it := range e.Items {
+		exOps(it, levels)
+	}
 }
 
 func btoi(b bool) int {
@@ -666,6 +713,12 @@ func exString(e *Ex) string {
 		return e.Lit
 	case "var":
 		return e.Name
+	case "arr":
+		parts := make([]string, len(e.Items))
+		for i, it := range e.Items {
+			parts[i] = exString(it)
+		}
+		return "[" + strings.Join(parts, ", ") + "]"
 	case "neg":
 		return "(-" + exString(e.L) + ")"
 	case "not":
@@ -698,7 +751,8 @@ func genLeaf(t *rapid.T, want string) *Ex {
 		return &Ex{Op: "var", T: "fnoeq", Name: "f32"}
 	case "str":
 		if drawBool(t, "lit") {
-			body := pick(t, "sb", []string{"", "a", "ab", "b", "a b", "1", "x<y", `q\"q`, `b\\s`, "é"})
+			// (a string literal is an operand whatever it spells: signs, operators, keywords)
+			body := pick(t, "sb", []string{"", "a", "ab", "b", "a b", "1", "x<y", `q\"q`, `b\\s`, "é", "-", "+", "not", "in", "-1", "!"})
 			q := `"`
 			if !strings.Contains(body, `\`) && !strings.Contains(body, `"`) && drawBool(t, "single") {
 				q = "'"
@@ -712,11 +766,27 @@ func genLeaf(t *rapid.T, want string) *Ex {
 		}
 		return &Ex{Op: "var", T: "bool", Name: pick(t, "bv", []string{"t", "fl"})}
 	case "ilist":
-		return &Ex{Op: "var", T: "ilist", Name: pick(t, "lv", []string{"il", "el"})}
+		if drawInt(t, 0, 2, "arrlit") == 0 {
+			return genArr(t, "ilist", "int")
+		}
+		return &Ex{Op: "var", T: "ilist", Name: pick(t, "lv", []string{"il", "el", "al", "al"})}
 	case "slist":
+		if drawInt(t, 0, 2, "arrlit") == 0 {
+			return genArr(t, "slist", "str")
+		}
 		return &Ex{Op: "var", T: "slist", Name: "sl"}
 	}
 	panic("leaf " + want)
+}
+
+// genArr builds an in-template array literal of 0..3 items, each an expression of its own
+func genArr(t *rapid.T, typ, item string) *Ex {
+	e := &Ex{Op: "arr", T: typ}
+	n := drawInt(t, 0, 3, "arrn")
+	for i := 0; i < n; i++ {
+		e.Items = append(e.Items, genEx(t, item, drawInt(t, 0, 1, "arrd")))
+	}
+	return e
 }
 
 // genEx builds a well-typed tree of the requested static type.
@@ -843,7 +913,7 @@ func genEx(t *rapid.T, want string, depth int) *Ex {
 
 var _ = register(&propSpec{
 	ID:   "C07.expr",
-	Rule: "well-typed expression trees (int/float/string/bool, context variables of every Go int/uint width and float32, integer literals with and without leading zeros (decimal either way), list membership, key membership in string- and int-keyed maps) of depth <= 7, printed with minimal parentheses per the stated precedence/associativity, random operator spellings (and/&&, or/||, !=/<>, not/!) and spacing, rendered as {{ e }} and {% if e %}; compared with an independent evaluator of the tree (wrap-around int64, truncated division, float64 when a float is involved, concatenation, short-circuit, division/modulo by zero = execution error). Non-trivial: operators from >= 2 precedence levels or a same-level chain of >= 3 operands AND at least one operator printed without parentheses; distinct by printed source.",
+	Rule: "well-typed expression trees (int/float/string/bool, context variables of every Go int/uint width and float32, integer literals with and without leading zeros (decimal either way), string literals that spell signs, operators and keywords, list membership (typed lists, a list of integers of mixed Go kinds, in-template array literals whose items are expressions of their own), key membership in string- and int-keyed maps) of depth <= 7, printed with minimal parentheses per the stated precedence/associativity, random operator spellings (and/&&, or/||, !=/<>, not/!) and spacing, rendered as {{ e }} and {% if e %}; compared with an independent evaluator of the tree (wrap-around int64, truncated division, float64 when a float is involved, concatenation, short-circuit, division/modulo by zero = execution error). Non-trivial: operators from >= 2 precedence levels or a same-level chain of >= 3 operands AND at least one operator printed without parentheses; distinct by printed source.",
 	Gen: func(t *rapid.T) any {
 		root := pick(t, "rootT", []string{"int", "float", "str", "bool", "bool", "truth"})
 		e := genEx(t, root, drawInt(t, 1, 7, "depth"))
